@@ -55,13 +55,12 @@ CORPUS_DIR = os.path.join(VERIF, "corpus", "C13")
 def table_impl():
     """the decision table computed by Python on the live classes (issubclass) and the AST (except lists)"""
     import importlib.util
+    from vlib import mp  # noqa: F401  (puts VERIF_REPO first on sys.path before the plug-in imports montepy)
 
     spec = importlib.util.spec_from_file_location("c13_errors", os.path.join(VERIF, "tools", "extractors", "c13_errors.py"))
     ex = importlib.util.module_from_spec(spec)
     spec.loader.exec_module(ex)
     regs = ex.regions()
-    names = None
-    rows = {}
     return ex, regs
 
 
@@ -206,7 +205,7 @@ def inject_model_case(site, name):
     if site in ("parser", "treeNone", "ctor"):
         return {"items": base + [{"t": "other", "fault": {"site": site, "cls": name}}]}
     if site == "reader":
-        return {"items": base[:1] + [{"t": "reader", "cls": name}] + base[1:] + [{"t": "other", "fault": None}]}
+        return {"items": base[:2] + [{"t": "reader", "cls": name}] + base[2:] + [{"t": "other", "fault": None}]}
     return None
 
 
